@@ -81,7 +81,17 @@ FAMILIES["mode"] = {
     "scenarios": [],
 }
 
+FAMILIES["metric"] = {
+    # Core.tla with the metrics endpoint scraped at any point: real metric.NewMetricCollector(...).Collect
+    "driver": "core", "monitor": "MonTrace",
+    "exhaustive": {"quick": [mc("MCMetricQ", "2 vBuckets, scrapes anywhere, 1 notification, 1 ack, consumer may block")],
+                   "thorough": [mc("MCMetric", "2 vBuckets, scrapes anywhere, mut/del/exp/sys, reserved keys, 1 notification, 1 end, Close(), 1 save, 2 acks", 5000)]},
+    "simulate": {"quick": [sim("SimMetric", 80, 55, isolate=True)], "thorough": [sim("SimMetric", 900, 55, isolate=True)]},
+    "scenarios": [],
+}
+
 PROPS = {
+    "C16": {"families": ["metric"]},
     "C09": {"custom": "funcheck"},
     "C19": {"custom": "funcheck"},
     "C18": {"custom": "funcheck"},
